@@ -22,6 +22,8 @@ type Generator[V any] struct {
 	impl    generatorImpl[V]
 	strOnce sync.Once
 	str     string
+	lblOnce sync.Once
+	lbl     string
 }
 
 func newGenerator[V any](impl generatorImpl[V]) *Generator[V] {
@@ -36,6 +38,16 @@ func (g *Generator[V]) String() string {
 	})
 
 	return g.str
+}
+
+// label names the generator's group in the recorded bitstream. Unlike String it never formats
+// values supplied by the user (Just, SampledFrom): drawing must not run their methods.
+func (g *Generator[V]) label() string {
+	g.lblOnce.Do(func() {
+		g.lbl = fmt.Sprintf("%T", g.impl)
+	})
+
+	return g.lbl
 }
 
 // Draw produces a value from the generator.
@@ -71,7 +83,7 @@ func (g *Generator[V]) Draw(t *T, label string) V {
 }
 
 func (g *Generator[V]) value(t *T) V {
-	i := t.s.beginGroup(g.String(), true)
+	i := t.s.beginGroup(g.label(), true)
 	v := g.impl.value(t)
 	t.s.endGroup(i, false)
 	return v
